@@ -411,6 +411,10 @@ class DownloadNode:
 
     def process_blocks(self, segnum, blocks):
         start = now()
+        # the decode runs in a thread: by the time it is done, the request
+        # that started this fetcher may have been cancelled, and another
+        # fetcher may have become the active one
+        fetcher = self._active_segment
         d = self._decode_blocks(segnum, blocks)
         d.addCallback(self._check_ciphertext_hash, segnum)
         def _deliver(result):
@@ -419,15 +423,15 @@ class DownloadNode:
                     level=log.OPERATIONAL, parent=self._lp,
                     umid="j60Ojg")
             when = now()
+            if self._active_segment is fetcher:
+                self._active_segment = None
             if isinstance(result, Failure):
                 # this catches failures in decode or ciphertext hash
-                self._active_segment = None
                 for (d,c,seg_ev) in self._extract_requests(segnum):
                     seg_ev.error(when)
                     eventually(self._deliver, d, c, result)
             else:
                 (offset, segment, decodetime) = result
-                self._active_segment = None
                 for (d,c,seg_ev) in self._extract_requests(segnum):
                     # when we have two requests for the same segment, the
                     # second one will not be "activated" before the data is
@@ -484,7 +488,6 @@ class DownloadNode:
     def _check_ciphertext_hash(self, segment_and_decodetime, segnum):
         (segment, decodetime) = segment_and_decodetime
         start = now()
-        assert self._active_segment.segnum == segnum
         assert self.segment_size is not None
         offset = segnum * self.segment_size
 
